@@ -255,6 +255,13 @@ OPEN (models tied by the correspondence run only; proofs not done):
   -- Lawful' = Lawful without "the state after count is valid for []" (finding 3) ;
   -- BUnion.V s l : children valid for ls, every child doc ≥ ws + H, window = deltas of the members
   --   of the original children in (doc, ws + H), l = doc :: window docs ++ sorted union of ls.
+  -- plan for the score clause of the sum union (motivated by seeded C13-A / C12-A): children carry a
+  -- ghost score function g_i with (A.score c).1 = g_i (A.doc c), stable under advance/seek/score;
+  -- G x := Σ_{i : x ∈ original list i} g_i x. Invariant added to BUnion.V: scores[δ] = G (ws + δ) for
+  -- δ ∈ window, scores[δ] = 0 for every other δ < H, and s.score = G s.doc. `advance_buffered` reads
+  -- and clears the popped slot; `refill` starts from an all-zero array (window empty, no fill_buffer)
+  -- and every drained (child, x) adds g_i x to slot x - m; the in-horizon `seek` clears exactly the
+  -- slots of the buckets it drops (the line seeded C13-A removes), the far `seek` clears all.
   theorem C13_union_score_path_independent_partial : for programs without fill_buffer
   --   (findings 1, 2: C13_union_fill_buffer_*_counterexample), score at d = Σ child scores at d.
 -/
